@@ -255,7 +255,7 @@ class Fn:
             return "(" + ", ".join(outs) + ")", add
         if k == "ppath":
             name = "::".join(p[1])
-            if p[1][-1] == "Some":
+            if p[1][-1] == "Some" or (p[1][-1] == "Ok" and self.paths.get("Ok") == "Some" and p[2] and len(p[2]) == 1):
                 inner = None
                 m = re.match(r"Option<(.*)>$", t or "")
                 if m:
@@ -2018,6 +2018,31 @@ def functions():
         return "Definition g_write_message (message : message) : res (list Z) :=\n  %s." % text
     out.append(("codec_write_message", "src/protocol.rs Codec::write_message", None, t_codec_write))
 
+    def t_mtime_secs():
+        src = read("src/bin/copia/meta.rs")
+        spec = dict(signature=[("meta", "std::fs::Metadata")], paths={"Ok": "Some"},
+                    calls={".modified": ("modified_of {0}", "Option<SystemTime>"), ".duration_since": ("since_epoch {0} (* {1} *)", "Option<Duration>"),
+                           ".as_secs": ("as_secs {0}", "u64"), "i64::try_from": ("(if {0} <=? 9223372036854775807 then Some {0} else None)", "Option<i64>")},
+                    consts={"UNIX_EPOCH": ("tt", "SystemTime")}, param_types={"meta": "Metadata"})
+        return translate_fn(src, "mtime_secs", None, spec, "g_mtime_secs", "(meta : fmeta)", "Z")
+    out.append(("mtime_secs", "src/bin/copia/meta.rs mtime_secs", None, t_mtime_secs))
+
+    def t_discover_meta():
+        src = read("src/bin/copia/meta.rs")
+        params, ret, body = R.find_fn(src, "discover_local_with_meta", None)
+        if [n for n, _ in params] != ["root"]:
+            raise Unsupported("signature of discover_local_with_meta is %s" % params)
+        spec = dict(try_transparent=True, paths={"Ok": "Some"},
+                    calls={"MetaMap::new": ("[]", "MetaMap"), "discover_local_files": ("files (* {0} *)", "Vec<PathBuf>"), ".join": ("{1} (* {0} *)", "PathBuf"),
+                           "std::fs::metadata": ("stat {0}", "Option<Metadata>"), "mtime_secs": ("g_mtime_secs {0}", "i64")},
+                    typed_methods={("Metadata", "len"): "size_of {0}"},
+                    structs={"FileMeta": ("Build_file_meta", ["size", "mtime"], ["u64", "i64"])},
+                    updates={"out.insert": "mm_insert {1} {2} {0}"}, ok=lambda s_: s_)
+        fn = Fn(spec)
+        text = fn.block(body, {"root": "Path"}, Ctx(val=(lambda x: x), ret=(lambda x: x), fall=None))
+        return "Definition g_discover_local_with_meta (files : list (list Z)) (stat : list Z -> option fmeta) : metamap :=\n  %s." % text
+    out.append(("discover_local_with_meta", "src/bin/copia/meta.rs discover_local_with_meta", None, t_discover_meta))
+
     def t_dvalidate():
         src = read("src/delta.rs")
         spec = dict(fields={("Delta", "ops"): ("(d_ops _ {0})", "Vec<DeltaOp>"), ("Delta", "basis_size"): ("(d_basis_size _ {0})", "u64")},
@@ -2857,6 +2882,7 @@ GROUPS = {
     "ArchiveSave": ("Model.ArchiveSys", "archivesys", ["archive_save"]),
     "OneWaySys": ("Model.OneWaySys", "onewaysys", ["tmp_path", "deliver_local", "deliver_pull"]),
     "OneWayRun": ("Model.Glob Model.Plan Model.OneWay", "onewayrun", ["run_local"]),
+    "LocalScan": ("Model.Glob Model.Plan Model.OneWay", "localscan", ["mtime_secs", "discover_local_with_meta"]),
     "ListingParse": ("Model.Glob Model.Plan Model.Listing", "listingparse", ["parse_listing"]),
     "OneWayPrint": ("Model.Glob Model.Plan Model.OneWay", "onewayprint", ["print_plan", "report"]),
     "PushDelete": ("Model.Glob Model.Plan Model.Listing Model.ShellQuote", "plainz", ["push_delete_request"]),
@@ -3056,6 +3082,11 @@ def main():
                      "Definition with_rest (r : res header) (rest : list Z) : res (header * list Z) := match r with ROk h => ROk (h, rest) | RErr e => RErr e end.\n"
                      "Section WithPayloadDecoder.\nVariable decode_message : list Z -> option (message * list Z).   (* Message::decode on exactly the payload *)\n\n"
                      + "\n".join(texts) + "End WithPayloadDecoder.\n")
+        elif digest == "localscan":
+            body += ("\n(* what `std::fs::metadata` reports of a file: its size and, when the file system has one, its modification time in\n   NANOSECONDS relative to the epoch (negative = before it) *)\n"
+                     "Record fmeta := { size_of : Z; modified_of : option Z }.\n"
+                     "Definition since_epoch (t : Z) : option Z := if 0 <=? t then Some t else None.   (* duration_since(UNIX_EPOCH).ok() *)\n"
+                     "Definition as_secs (d : Z) : Z := d / 1000000000.                                  (* Duration::as_secs *)\n\n" + "\n".join(texts))
         elif digest == "plainz":
             body += "\n" + "\n".join(texts)
         elif digest == "archivesys":
